@@ -7,7 +7,7 @@ re-indexing.  Violation key = algorithm + ':' + kind of masking."""
 import sys, os, copy
 sys.path.insert(0, os.path.dirname(__file__))
 from common import *
-from kriggen import gen_locations, gen_model, model_sx, monomials, COV_NUGGET, COV_SPH, COV_EXP, COV_GAUS, COV_CUBIC
+from kriggen import gen_locations, gen_model, model_sx, monomials, kriging_case, model_case, parse_harness, COV_NUGGET, COV_SPH, COV_EXP, COV_GAUS, COV_CUBIC
 
 TOL = 1e-9
 X, Z, V, F, SEL, W, CODE, DATE, NONE = 1, 2, 3, 4, 5, 6, 7, 8, 0
@@ -223,6 +223,12 @@ def run_kriging(ctx, exe, ncase, found):
         plan.append({'kind': kind, 'masks': masks, 'full': full, 'fout': fout, 'K': K, 'KT': KT, 't': (t_full, t_red, t_cr), 'neigh': 'moving' if moving else 'unique',
                      'hdr': hdr, 'tail': tail, 'nvar': nvar, 'scale': zscale(base), 'base': base, 'out': out})
     B.run()
+    deferred = []
+    def emit(p, msgs, rep):
+        algo = 'kriging-' + p['neigh']
+        for sk, m_ in msgs:
+            key = ('createReduce:' + classify(p, 'value')) if sk == 'createReduce' else (algo + ':' + classify(p, sk))
+            ctx.violation(key, m_, rep); found[0] = True
     for p in plan:
         algo = 'kriging-' + p['neigh']
         ctx.dist(algo + ':' + p['kind'])
@@ -259,10 +265,26 @@ def run_kriging(ctx, exe, ncase, found):
             if rc[0] != rr[0]: msgs.append(('createReduce', 'status %d on Db::createReduce copies, %d on the directly reduced Dbs' % (rc[0], rr[0])))
             else:
                 for (sk, m_) in compare_rows(rc[1], rr[1], nold, nold, list(range(len(p['KT']))), p['fout'].sub(p['KT']), p['scale'], untouched=False): msgs.append(('createReduce', m_))
-        for sk, m_ in msgs:
-            key = ('createReduce:' + classify(p, 'value')) if sk == 'createReduce' else (algo + ':' + classify(p, sk))
-            ctx.violation(key, m_, rep); found[0] = True
+        if msgs and len([m_ for m_ in p['masks'] if m_.get('on') != 'dbout']) > 1: deferred.append((p, msgs, rep)); continue
+        emit(p, msgs, rep)
         if not msgs: ctx.sample({'algo': algo, 'kind': p['kind'], 'n': p['full'].n, 'kept': len(p['K']), 'targets_kept': len(p['KT'])}, 6)
+    if deferred:
+        # a case with several masks on the data failed: which single mask reproduces the failure?
+        B2 = Batch(ctx, exe, 'krig_shrink')
+        for p, msgs, rep in deferred:
+            p['sub'] = []
+            for m_ in [m_ for m_ in p['masks'] if m_.get('on') != 'dbout']:
+                f = apply_masks(p['base'], [m_]); K = usable_rows(f)
+                if not K or not p['KT']: continue
+                p['sub'].append((m_, B2.add(p['hdr'] + [f.sx(), p['fout'].sx()] + p['tail']), B2.add(p['hdr'] + [f.sub(K).sx(), p['fout'].sub(p['KT']).sx()] + p['tail']), f))
+        B2.run()
+        for p, msgs, rep in deferred:
+            nold = len(p['fout'].cols)
+            for m_, t1, t2, f in p['sub']:
+                a, b = B2.get(t1), B2.get(t2)
+                if a == 'crash' or b == 'crash' or a[0] != b[0] or compare_rows(a[1], b[1], nold, nold, p['KT'], p['fout'], p['scale']):
+                    p['culprit'] = [m_['kind']]; rep = dict(rep); rep['shrunk_to'] = {'mask': m_, 'with_masks': sx_str(B2.cases[t1]), 'reduced': sx_str(B2.cases[t2])}; break
+            emit(p, msgs, rep)
     return B, plan
 
 def classify(p, subkey):
@@ -312,11 +334,11 @@ def vario_blocks(r): return r[3]
 def run_vario(ctx, exe, ncase, found):
     rng = ctx.rng
     B = Batch(ctx, exe, 'vario'); plan = []
-    kinds = ['selection', 'NA-value', 'NA-one-variable', 'undefined-first-coordinate', 'undefined-coordinate', 'zero-weight', 'NA-weight', 'selection-NA', 'full-selection', 'empty-selection']
+    kinds = ['selection', 'NA-value', 'NA-one-variable', 'undefined-first-coordinate', 'undefined-other-coordinate', 'zero-weight', 'NA-weight', 'selection-NA', 'full-selection', 'empty-selection']
     for ic in range(ncase):
         ndim = rng.choice([1, 2, 2]); nvar = rng.choice([1, 1, 2]); kind = kinds[ic % len(kinds)]
         if kind == 'NA-one-variable': nvar = 2
-        if kind == 'undefined-coordinate' and ndim == 1: ndim = 2
+        if kind == 'undefined-other-coordinate' and ndim == 1: ndim = 2
         calc = rng.choice([0, 0, 0, 1, 9])
         n = rng.randint(8, 22)
         base = gen_points(rng, ndim, nvar, n, 0)
@@ -331,11 +353,7 @@ def run_vario(ctx, exe, ncase, found):
             for i in rows: full.col(W)[i] = None; red.col(W)[i] = Fraction(1)
             K = list(range(n)); ds = {'kind': kind, 'rows': rows}; rel = 'weight-one'
         else:
-            if kind == 'undefined-coordinate':
-                full = base.copy(); rows = pick_rows(rng, n)
-                for i in rows: full.col(X, 1)[i] = None
-                ds = {'kind': kind, 'rows': rows}
-            else: full, ds = apply_mask(rng, base, kind)
+            full, ds = apply_mask(rng, base, kind)
             K = usable_rows(full, need_z=('any' if kind != 'NA-one-variable' else 'none'), need_weight=(kind == 'zero-weight'))
             red = full.sub(K)
         hdr = [3, ndim, nvar]; tail = [dirs, calc, 0]
@@ -364,19 +382,27 @@ def run_vario(ctx, exe, ncase, found):
                             ctx.violation(algo + ':' + p['kind'], 'no usable sample, yet pairs are counted: sw = %s' % [fl(undy(x)) for x in blk[0]], rep); found[0] = True
             continue
         ctx.count(rep['with_masks'][:3000], len(p['K']) < p['full'].n or p['rel'] != 'reduce')
-        def cmp_blocks(a, b, what, only=None):
-            if a[0] != b[0]: return ['computeFromDb %s with the masked samples present and %s on %s' % ('succeeds' if a[0] else 'fails', 'succeeds' if b[0] else 'fails', what)]
+        asym = p['calc'] in (1, 9)
+        def cmp_blocks(a, b, what):
+            """list of (where, message); where = 'pairs' (a lag cell), 'C00' (central cell of a covariance / global variance), 'status'"""
+            if a[0] != b[0]: return [('status', 'computeFromDb %s with the masked samples present and %s on %s' % ('succeeds' if a[0] else 'fails', 'succeeds' if b[0] else 'fails', what))]
             if not a[0]: return []
+            out = []
             for idir, (da, dbb) in enumerate(zip(a[3], b[3])):
                 for ib, (ba, bb) in enumerate(zip(da, dbb)):
                     for name, va, vb in zip(('sw', 'hh', 'gg'), ba, bb):
                         for k, (x, y) in enumerate(zip(va, vb)):
                             sc = p['scale'] if name == 'gg' else 1.0
                             if not close(undy(x), undy(y), sc):
-                                return ['direction %d, variable pair %d, %s[%d]: %s with the masked samples present, %s on %s' % (idir, ib, name, k, fl(undy(x)), fl(undy(y)), what)]
-            return []
-        msgs = [('value', m_) for m_ in cmp_blocks(rf, rr, 'the reduced Db')]
-        if rc is not None and not msgs: msgs += [('createReduce', m_) for m_ in cmp_blocks(rc, rr, 'the directly reduced Db (first run: Db::createReduce copy)')]
+                                where = 'C00' if asym and k == (len(va) - 1) // 2 else 'pairs'
+                                if not any(w == where for w, _ in out):
+                                    out.append((where, 'direction %d, variable pair %d, %s[%d]: %s with the masked samples present, %s on %s' % (idir, ib, name, k, fl(undy(x)), fl(undy(y)), what)))
+            for k, (x, y) in enumerate(zip(a[2], b[2])):     # global variances Vario::getVars()
+                if not close(undy(x), undy(y), p['scale']) and not any(w == 'C00' for w, _ in out):
+                    out.append(('C00', 'global variance [%d]: %s with the masked samples present, %s on %s' % (k, fl(undy(x)), fl(undy(y)), what)))
+            return out
+        msgs = [('value:' + w, m_) for w, m_ in cmp_blocks(rf, rr, 'the reduced Db')]
+        if rc is not None and not msgs: msgs += [('createReduce', m_) for w, m_ in cmp_blocks(rc, rr, 'the directly reduced Db (first run: Db::createReduce copy)')]
         if not msgs:
             for iv, t, Kv in p['pv']:
                 r1 = B.get(t)
@@ -392,7 +418,11 @@ def run_vario(ctx, exe, ncase, found):
                         if msgs: break
                     if msgs: break
                 if msgs: break
-        for sk, m_ in msgs: ctx.violation(algo + ':' + classify(p, sk if sk != 'per-variable' else 'value') + (':per-variable' if sk == 'per-variable' else ''), m_, rep); found[0] = True
+        for sk, m_ in msgs:
+            if sk == 'createReduce': key = 'createReduce:' + classify(p, 'value')
+            elif sk == 'per-variable': key = algo + ':' + classify(p, 'value') + ':per-variable'
+            else: key = algo + ':' + classify(p, 'value') + ':' + sk.split(':')[1]      # vario:<kind>:pairs|C00|status
+            ctx.violation(key, m_, rep); found[0] = True
 
 def rows_of(db, cols_idx, hasW=True):
     sel = db.col(SEL); w = db.col(W); out = []
@@ -548,10 +578,15 @@ def run_matrices(ctx, exe, ncase, found):
             continue
         K = p['K']; K2 = p['K2'] if p['K2'] is not None else K
         msgs = []
-        # index lists: ranks of the full Db = renamed ranks of the reduced Db
-        for which, (a, b, kk) in enumerate([(rf[0], rr[0], K), (rf[1], rr[1], K2)]):
-            if [list(x) for x in a] != [[kk[j] for j in x] for x in b]:
-                msgs.append(('getMultipleRanksActive', 'index lists of db%d: %s with the masked samples present, %s (renamed) on the reduced Db' % (which + 1, a, [[kk[j] for j in x] for x in b]))); break
+        # index lists (Db::getMultipleRanksActive with its default arguments): per variable, the active samples where it is defined
+        def expected_index(db, vars_):
+            act = db.active(); nz = db.ncol(Z)
+            return [[i for i in range(db.n) if act[i] and (nz == 0 or db.col(Z, v)[i] is not None)] for v in vars_]
+        c1 = B.cases[p['t'][0]]; iv0, jv0 = c1[6], c1[7]
+        ivs = [iv0] if iv0 >= 0 else list(range(p['nvar'])); jvs = [jv0] if jv0 >= 0 else list(range(p['nvar']))
+        exp1 = expected_index(p['full'], ivs)
+        if [list(x) for x in rf[0]] != exp1:
+            msgs.append(('getMultipleRanksActive', 'Db::getMultipleRanksActive: %s, but the active samples with the variable defined are %s' % (rf[0], exp1)))
         names = ['evalCovMatrix', 'evalCovMatrixSymmetric', 'evalCovMatrixOptim', 'evalCovMatrixSymmetricOptim']
         for name, ma, mb in zip(names, rf[2:6], rr[2:6]):
             if len(ma) != len(mb) or (ma and len(ma[0]) != len(mb[0])):
@@ -615,12 +650,90 @@ def run_ranks(ctx, exe, runner, ncase, found):
         if weird and mc[5] == [] and mc[6] and [list(x) for x in mo[0]] != [list(x) for x in mo[3]]: nref += 1
     ctx.cov['ranks_reduce_counterexamples_seen_with_arbitrary_selection_values'] = nref
 
+# ----------------------------------------------------------------------------- kreduce (Coq) against the physically reduced Db (impl)
+def c01_db(db):
+    """PDb -> the Db layout of harness/C01.cpp / kriggen"""
+    nd, nz, nf = db.ncol(X), db.ncol(Z), db.ncol(F)
+    return {'coords': [db.col(X, d) for d in range(nd)], 'z': [db.col(Z, v) for v in range(nz)], 'verr': [],
+            'fext': [db.col(F, f) for f in range(nf)], 'sel': ([1 if a else 0 for a in db.active()] if db.col(SEL) is not None else []), 'n': db.n}
+
+def run_kreduce_model(ctx, runner, ncase, found):
+    """The Coq definition of the reduced kriging case (Spec_krige.kreduce, on which theorem C05_krige is stated) against the case that
+    the implementation builds from the physically reduced Db: same samples, same covariance oracles (harvested by harness/C01.cpp)."""
+    exe01 = build_harness(ctx, 'C01')
+    if exe01 is None: print('ERROR: harness C01 does not build'); sys.exit(3)
+    rng = ctx.rng; cases = []; plan = []
+    kinds = ['selection', 'undefined-coordinate', 'NA-value', 'undefined-fext', 'mixed']
+    for ic in range(ncase):
+        ndim = rng.choice([1, 2, 2, 3]); nvar = rng.choice([1, 1, 2]); order = rng.choice([-1, 0, 1]); kind = kinds[ic % len(kinds)]
+        nfex = 1 if kind == 'undefined-fext' else 0
+        if nfex and order < 0: order = 0
+        n = rng.randint(nvar * (monomials(ndim, order) + nfex) + 5, 14); m = 3
+        base = gen_points(rng, ndim, nvar, n, nfex, hetero=(nvar == 2 and rng.random() < .5))
+        out = gen_points(rng, ndim, 0, m, nfex)
+        model = simple_model(rng, ndim, nvar, order, nfex)
+        full = base
+        for k in (rng.sample(['selection', 'undefined-coordinate', 'NA-value'], 2) if kind == 'mixed' else [kind]):
+            full, ds = apply_mask(rng, full, k, pick_rows(rng, n, 1, .25))
+        K = usable_rows(full)
+        if not K: continue
+        red = full.sub(K)
+        pys = []
+        for d in (full, red):
+            py = {'ndim': ndim, 'nvar': nvar, 'dbin': c01_db(d), 'dbout': c01_db(out), 'model': model, 'neigh': [0], 'calcul': [0]}
+            py['dbout']['z'] = []; py['dbout']['verr'] = []
+            cases.append(kriging_case(ndim, nvar, py['dbin'], py['dbout'], model, [0], [0], list(range(m)))); pys.append(py)
+        plan.append((kind, full, K, pys))
+    cf = write_cases(ctx, 'kreduce_impl', cases)
+    rc, res = run_impl(ctx, exe01, cf)
+    if len(res) != len(cases):
+        ctx.violation('kriging-unique:crash', 'harness C01 crashed on case %d' % len(res), {'case': sx_str(cases[len(res)])}); found[0] = True; return
+    mcases = []; ref = []
+    for ip, (kind, full, K, pys) in enumerate(plan):
+        df, okf, perf = parse_harness(res[2 * ip]); dr, okr, perr = parse_harness(res[2 * ip + 1])
+        if not okf or not okr: continue
+        tf, tr = perf[0], perr[0]
+        if not tf['nbgh'] or not tr['nbgh']: continue
+        kf = model_case(pys[0], df, tf); kr = model_case(pys[1], dr, tr)
+        mcases.append([5, kf]); ref.append((kind, full, K, tf, tr, kf, kr))
+    if not mcases: return
+    mf = write_cases(ctx, 'kreduce_model', mcases)
+    rcm, model = run_model(ctx, runner, mf)
+    if len(model) != len(mcases): print('ERROR: model runner returned %d results for %d cases' % (len(model), len(mcases))); sys.exit(3)
+    def q(x): return None if x == [] else Fraction(x[0], x[1])
+    def d(x): return undy(x)
+    for (kind, full, K, tf, tr, kf, kr), mo, mc in zip(ref, model, mcases):
+        ctx.dist('kreduce-correspondence:' + kind); ctx.count(sx_str(mc)[:2000], len(tr['nbgh']) < len(tf['nbgh']))
+        if mo and mo[0] == -999: print('ERROR: model rejected a kriging case'); sys.exit(3)
+        kkept, kcase, kr_full, kr_red, active_ren = mo
+        bad = None
+        # ranks: the neighbourhood of the full Db restricted to the model's kept positions = the usable samples
+        if [tf['nbgh'][a] for a in kkept] != [K[j] for j in tr['nbgh']]:
+            bad = 'kept samples: model %s (ranks %s), physically reduced Db %s' % (kkept, [tf['nbgh'][a] for a in kkept], [K[j] for j in tr['nbgh']])
+        else:
+            samples, clhs, crhs = kcase
+            exp_samples = kr[3]; exp_clhs = kr[8]; exp_crhs = kr[9]
+            if [[[q(x) for x in part] for part in s_] for s_ in samples] != [[[d(x) for x in part] for part in s_] for s_ in exp_samples]: bad = 'samples of kreduce differ from the samples of the reduced Db'
+            elif [[[[q(x) for x in r_] for r_ in M] for M in row] for row in clhs] != [[[[d(x) for x in r_] for r_ in M] for M in row] for row in exp_clhs]: bad = 'left-hand-side covariance oracles of kreduce differ from those harvested on the reduced Db'
+            elif [[[[q(x) for x in r_] for r_ in M] for M in row] for row in crhs] != [[[[d(x) for x in r_] for r_ in M] for M in row] for row in exp_crhs]: bad = 'right-hand-side covariance oracles of kreduce differ from those harvested on the reduced Db'
+            elif kr_full[0] != kr_red[0] or (kr_full[0] == 1 and (kr_full[2:] != kr_red[2:] or kr_full[1] != active_ren)): bad = 'model: krige k and krige (kreduce k) differ (theorem C05_krige contradicted?)'
+        if bad:
+            ctx.violation('model-drift:kreduce', bad, {'model_case': sx_str(mc), 'kind': kind}, found_input=False)
+        elif kr_full[0] == 1:
+            # the implementation's estimate on the Db with masks against the exact solution of the reduced system
+            est = [undy(x) for x in tf['est']]; mest = [q(x) for x in kr_red[2]]
+            zs = zscale(full)
+            for v, (a, b) in enumerate(zip(est, mest)):
+                if a is None or abs(float(a) - float(b)) > 1e-6 * (zs + abs(float(b))):
+                    ctx.dist('kreduce-correspondence:estimate-differs-beyond-1e-6 (ill-conditioned or C01 matter)')
+
 def run_simtub(ctx, exe, ncase, found):
     rng = ctx.rng
     B = Batch(ctx, exe, 'simtub'); plan = []
-    kinds = ['selection', 'NA-value', 'undefined-coordinate', 'masked-target']
-    for ic in range(ncase):
-        ndim = rng.choice([1, 2]); kind = kinds[ic % len(kinds)]; n = rng.randint(6, 12); m = 6
+    kinds = ['selection', 'NA-value', 'masked-target', 'undefined-coordinate']
+    # the undefined-coordinate witness costs one to two minutes (see below): thorough tier only
+    for ic in range(ncase + (0 if ctx.quick() else 1)):
+        ndim = rng.choice([1, 2]); kind = kinds[ic % 3] if ic < ncase else 'undefined-coordinate'; n = rng.randint(6, 12); m = 6
         base = gen_points(rng, ndim, 1, n, 0); out = gen_points(rng, ndim, 0, m, 0, keepcol=True)
         model = simple_model(rng, ndim, 1, rng.choice([-1, 0]), simu=True)
         neigh = [0] if rng.random() < .6 else [1, 1, 6, dy(1000)]
@@ -630,14 +743,21 @@ def run_simtub(ctx, exe, ncase, found):
         K = usable_rows(full); KT = [i for i, a in enumerate(fout.active()) if a]
         tail = [model_sx(model), neigh, 2, 1234 + ic, 30]
         if not K or not KT: continue
-        t1 = B.add([7, ndim, 1, full.sx(), fout.sx()] + tail); t2 = B.add([7, ndim, 1, full.sub(K).sx(), fout.sub(KT).sx()] + tail)
-        plan.append({'kind': kind, 'masks': masks, 'full': full, 'fout': fout, 'K': K, 'KT': KT, 't': (t1, t2), 'scale': zscale(base), 'neigh': 'moving' if neigh[0] else 'unique'})
+        if kind == 'undefined-coordinate':
+            # an undefined data coordinate makes the band generation run for about a minute per 30 bands before failing
+            # (or crashing): one small witness, in a process of its own
+            tail = [model_sx(model), neigh, 1, 1234 + ic, 1]; BB = Batch(ctx, exe, 'simtub_nacoord')
+        else: BB = B
+        t1 = BB.add([7, ndim, 1, full.sx(), fout.sx()] + tail); t2 = BB.add([7, ndim, 1, full.sub(K).sx(), fout.sub(KT).sx()] + tail)
+        plan.append({'kind': kind, 'masks': masks, 'full': full, 'fout': fout, 'K': K, 'KT': KT, 't': (t1, t2), 'scale': zscale(base), 'neigh': 'moving' if neigh[0] else 'unique', 'B': BB})
     B.run()
     for p in plan:
-        algo = 'simtub-' + p['neigh']; ctx.dist(algo + ':' + p['kind'])
-        rf, rr = B.get(p['t'][0]), B.get(p['t'][1])
-        rep = {'with_masks': sx_str(B.cases[p['t'][0]]), 'reduced': sx_str(B.cases[p['t'][1]]), 'masks': p['masks'], 'kept_data': p['K'], 'kept_targets': p['KT']}
-        if rf == 'crash' or rr == 'crash': ctx.violation(algo + ':crash:' + p['kind'], 'harness crashed', rep); found[0] = True; continue
+        if p['B'] is not B: p['B'].run()
+    for p in plan:
+        algo = 'simtub'; ctx.dist(algo + '-' + p['neigh'] + ':' + p['kind']); B_ = p['B']
+        rf, rr = B_.get(p['t'][0]), B_.get(p['t'][1])
+        rep = {'with_masks': sx_str(B_.cases[p['t'][0]]), 'reduced': sx_str(B_.cases[p['t'][1]]), 'masks': p['masks'], 'kept_data': p['K'], 'kept_targets': p['KT'], 'neigh': p['neigh']}
+        if rf == 'crash' or rr == 'crash': ctx.violation(algo + ':' + classify(p, 'value') + ':crash', 'simtub() crashes (%s)' % ('with the masked / undefined samples present' if rf == 'crash' else 'on the reduced Db'), rep); found[0] = True; continue
         ctx.count(rep['with_masks'][:3000], len(p['K']) < p['full'].n or len(p['KT']) < p['fout'].n)
         nold = len(p['fout'].cols); msgs = []
         if rf[0] != rr[0]: msgs.append(('status', 'simtub() returns %d with the masked samples present and %d on the reduced Db' % (rf[0], rr[0])))
@@ -693,6 +813,7 @@ def run(ctx):
     if want('stats'): run_stats(ctx, exe, runner, 64 if q else 640, found)
     if want('matrices'): run_matrices(ctx, exe, 64 if q else 640, found)
     if want('ranks'): run_ranks(ctx, exe, runner, 120 if q else 1500, found)
+    if want('kreduce'): run_kreduce_model(ctx, runner, 30 if q else 300, found)
     if want('simtub'): run_simtub(ctx, exe, 16 if q else 120, found)
     if only is not None: ctx.notes.append('partial run: C05_ONLY=%s' % ','.join(only))
     ctx.cov['rule'] = ('case = (algorithm, Db, kind of masking): kriging / xvalid (unique and moving neighbourhoods, SK/OK/UK, 1-2 variables, heterotopic), '
